@@ -273,11 +273,20 @@ def run(ctx):
                       schema=[sc.get('minimum'), sc.get('maximum')], live=[d['min'], d['max']])
     # ---- enforcement at the schema's bounds (reader behaviour, as C07 observes it)
     pjobs = []
+    from .c06 import catalogue
+    from .. import units as U
+    import math
+    cat = catalogue()
+    unit_type_of = {}
+    for ut_, us in cat.items():
+        for u_ in us:
+            unit_type_of.setdefault(u_, ut_)
     for fam in ctx.pick(['std-4-orc', 'std-3-cogen-flash', 'dh', 'addons', 'sbt', 'sutra'], fams):
         if fam not in live:
             continue
         names = {n for params in live[fam].values() for n in params}
         probes = []
+        unit_probes = []
         for name in sorted(names):
             if name not in schema or name in redefined:
                 continue
@@ -290,7 +299,24 @@ def run(ctx):
             else:
                 if abs(lo) > 1e29 or abs(hi) > 1e29:
                     continue
-                vals = [(lo - c07._eps(lo), 'below-min'), (lo, 'min'), (hi, 'max'), (hi + c07._eps(hi), 'above-max')]
+                vals = [(lo - c07._eps(lo), 'below-min'), (lo, 'min'), (hi, 'max'), (hi + c07._eps(hi), 'above-max'),
+                        (-(abs(lo) + abs(hi) + 1.5), 'far-below-min'), ((abs(lo) + abs(hi)) * 10.0 + 1.5, 'far-above-max')]
+                # the published bound also binds a value written in another listed unit
+                pref = sc.get('units')
+                ut = unit_type_of.get(pref)
+                if ut and ut not in c07.CURRENCY_TYPES and hi > lo:
+                    others = [u for u in cat[ut] if u and u != pref]
+                    if others:
+                        u = others[(len(name) + len(others)) % len(others)]
+                        for kind, v in (('above-max-other-unit', hi + 0.05 * (hi - lo) + 1e-6), ('below-min-other-unit', lo - 0.05 * (hi - lo) - 1e-6)):
+                            try:
+                                conv = U.convert(v, pref, u)
+                                back = U.convert(conv, u, pref)
+                            except ValueError:
+                                continue
+                            if math.isfinite(conv) and abs(back - v) <= 1e-9 * max(1.0, abs(v)):
+                                unit_probes.append({'name': name, 'value': v, 'kind': kind,
+                                                    'dom': {'source': 'schema', 'min': lo, 'max': hi, 'text': f'{conv!r} {u}', 'unit': u}})
             for v, kind in vals:
                 try:
                     if sc.get('default') is not None and float(sc['default']) == float(v) and kind in ('below-min', 'above-max'):
@@ -298,6 +324,7 @@ def run(ctx):
                 except (TypeError, ValueError):
                     pass
                 probes.append({'name': name, 'value': v, 'kind': kind, 'dom': {'source': 'schema', 'min': lo, 'max': hi}})
+        probes += unit_probes
         text = c07.base_text(fam)
         for i in range(0, len(probes), 60):
             pjobs.append({'fn': 'gxv.props.c07:probe_job', 'args': {'text': text, 'probes': probes[i:i + 60], 'family': fam}, 'timeout': 600})
